@@ -5,9 +5,9 @@ CONSTANTS
   Callers = {"t1", "t2"}
   MemberVals = {{}, {"g1"}, {"g1", "g2"}}
   Coarse = TRUE
-  Thin = 8
-  SimLen = 0
+  Thin = 1
+  SimLen = 30
   Questions <- Questions2
-ACTION_CONSTRAINT Emit
-VIEW View
+ACTION_CONSTRAINT EmitSim
+
 CHECK_DEADLOCK FALSE
